@@ -29,7 +29,9 @@ def eng_state(gwy) -> str:
         p._msg_handler is not None,
         bool(gwy._disable_sending),
         bool(gwy.config.disable_discovery),
-        bool(t.is_reading()) if t else None,
+        # (the serial-port transport never consults its `_reading` flag - it starts False and reads all the same - so for it
+        #  the flag is no observable of "still receiving"; the probe packet below is)
+        (True if type(t).__name__ == "PortTransport" else bool(t.is_reading())) if t else None,
         bool(getattr(p, "_pause_writing", False)),
         bool(gwy._engine_lock.locked()),
     ))
@@ -105,15 +107,17 @@ SPECIALS = [
 ]
 
 
-async def episode(loop, history, eavesdrop, checkpoints, faults, rnd) -> dict:
-    rig = gwrig.Rig(loop, config={"enable_eavesdrop": eavesdrop})
+async def episode(loop, history, eavesdrop, checkpoints, faults, rnd, port=False) -> dict:
+    """`port`: the gateway runs on the library's real serial-port transport (on a pty), so that the transmit path's own
+    regulation (duty cycle, avoidance of the controllers' sync cycles, which is driven by received I|1F09) is in play"""
+    rig = gwrig.Rig(loop, config={"enable_eavesdrop": eavesdrop}, port=port)
     await rig.start()
     gwy = rig.gwy
     seen: list = []
     gwy.add_msg_handler(seen.append)
     out = {"view_errors": [], "op_errors": [], "engine": [], "handled": [], "send": [], "model_ops": [], "n_devices": 0}
     for i, fr in enumerate(history):
-        await asyncio.sleep(rnd.choice((0.05, 0.3, 1.0, 2.0, 30.0, 400.0)) if i % 7 else 3.1)
+        await asyncio.sleep(rnd.choice((0.05, 0.3, 1.0, 2.0, 30.0, 150.0 if port else 400.0)) if i % 7 else 3.1)
         await rig.feed(fr)
         if i not in checkpoints:
             continue
@@ -195,6 +199,15 @@ async def episode(loop, history, eavesdrop, checkpoints, faults, rnd) -> dict:
                 out["op_errors"].append((i, "get_state() during a restore", other[0]))
         out["model_ops"].append((before, ops, eng_state(gwy) + extra))
         # --- is a packet received after the operation still handled?  can we still send?
+        from ramses_tx.command import Command
+
+        if port:   # a send as things stand (whatever sync announcements were heard, however long ago)
+            cmd = Command.from_attrs("RQ", "01:145038", "0006", "00", from_id=gwrig.HGI_ID)
+            try:
+                await asyncio.wait_for(gwy.async_send_cmd(cmd, wait_for_reply=False, max_retries=0, timeout=2.0), timeout=5.0)
+                out["send"].append((i, True, ""))
+            except Exception as e:  # noqa: BLE001
+                out["send"].append((i, False, repr(e)))
         seen.clear()
         await rig.feed(f" I --- {PROBE_SRC} --:------ {PROBE_SRC} 1F09 003 FF0514")
         out["handled"].append((i, any(str(m.src.id) == PROBE_SRC for m in seen)))
@@ -260,9 +273,10 @@ def run(chk: Check) -> None:
             elif r < 0.5:
                 faults[c] = "nested"
         eav = rnd.random() < 0.5
+        port = rnd.random() < 0.2
 
-        async def body(loop, h=h, eav=eav, cps=cps, faults=faults):
-            return await episode(loop, h, eav, set(cps), faults, rnd)
+        async def body(loop, h=h, eav=eav, cps=cps, faults=faults, port=port):
+            return await episode(loop, h, eav, set(cps), faults, rnd, port=port)
 
         try:
             res, _ = gwrig.run(body)
@@ -271,10 +285,11 @@ def run(chk: Check) -> None:
             continue
         chk.evaluations += 1
         chk.nontrivial.add(tuple(h))
-        rep = {"op": "history", "history": h, "eavesdrop": eav, "checkpoints": cps, "faults": faults}
+        rep = {"op": "history", "history": h, "eavesdrop": eav, "checkpoints": cps, "faults": faults, "port": port}
         chk.count("checkpoints", len(res["engine"]))
         chk.count("devices_seen", res["n_devices"])
         chk.count("eavesdrop_on" if eav else "eavesdrop_off")
+        chk.count("transport.real_port" if port else "transport.mock")
         for i, name, e, tb in res["view_errors"][:1]:
             chk.violation(f"c13.view:{name.split('.')[-1]}:{e.split('(')[0]}", f"after packet {i} ({h[i]!r}) view {name} raised {e}", {**rep, "at": i, "traceback": tb})
         for i, what, e in res["op_errors"][:1]:
